@@ -504,7 +504,8 @@ WRAP_SWALLOWS: Mechanism = ("wrap-prone-hull-swallows", "C03-F6", hull_swallows)
 # C03-F4 (two-part window), C03-F9 (origin-spanning first core) and C03-F12 (lookup scan) were repaired in /repo:
 # no input class is attached to them any more, their witnesses are replayed as regression tests
 SUP_OVER: Mechanism = ("superior-overlaps", "C03-F7", superior_overlaps)
-SUP_LATE: Mechanism = ("superior-chain-over-origin", "C03-F10", superior_chain_over_origin)
+# C03-F10 (redundancy tested before merging over the origin) and C03-F11 (merge_pair neighbourhood) were repaired
+# in /repo: no input class is attached to them any more, their witnesses are replayed as regression tests
 
 MECHANISMS: Dict[str, List[Mechanism]] = {
     "anchoring-genes": [
@@ -513,17 +514,15 @@ MECHANISMS: Dict[str, List[Mechanism]] = {
     "neighbourhood": [("ring-closes", "C03-F5", ring_closes)],
     "no-unexpected-exception": [
         ("gene-at-0-with-origin-spanning-gene", "C03-F8", zero_start_with_spanning_gene),
-        ("merged-ring-closes", "C03-F5", merged_ring_closes),
         ("wrap-prone", "C03-F6", some_chain_wrap_prone),
-        ("merged-cores-with-extenders", "C03-F11", merged_cores_with_extenders),
     ],
     "core-smallest-span": [("wrap-prone", "C03-F6", wrap_prone_own)],
     "extenders-core": [("wrap-prone", "C03-F6", wrap_prone_own),
                        ("half-ring", "C03-F6", half_ring_with_extenders)],
-    "chains-maximal": [SUP_OVER, WRAP_SWALLOWS, SUP_LATE],
-    "one-protocluster-per-chain": [WRAP_SWALLOWS, SUP_LATE],
-    "kept-unless-superior-covers": [SUP_OVER, SUP_LATE, WRAP_ANY],
-    "dropped-when-superior-covers": [WRAP_ANY, SUP_LATE],
+    "chains-maximal": [WRAP_SWALLOWS],
+    "one-protocluster-per-chain": [WRAP_SWALLOWS],
+    "kept-unless-superior-covers": [SUP_OVER, WRAP_ANY],
+    "dropped-when-superior-covers": [WRAP_ANY],
 }
 
 
@@ -566,7 +565,6 @@ CASE_PRIORITY = (
     "wrap-prone",
     "ring-closes",
     "superior-overlaps-over-origin",
-    "superior-chain-over-origin",
     "merged-cores-with-extenders",
 )
 
@@ -618,11 +616,6 @@ def case_mechanisms(case: Dict[str, Any]) -> List[str]:
                         if any(a & b and not a <= b for a in own for b in theirs):
                             found.add("superior-overlaps-over-origin")
     if ctx.circular:
-        for rule in case["rules"]:
-            for sup in rule.get("sup") or []:
-                if sup in by_name and chains_of[rule["n"]] and any(
-                        len(other) >= 2 and ctx.crossing_spans(other) for other in chains_of[sup]):
-                    found.add("superior-chain-over-origin")
         if merged_cores_with_extenders(ctx, {}):
             found.add("merged-cores-with-extenders")
     return [name for name in CASE_PRIORITY if name in found]
